@@ -153,6 +153,10 @@ PENDING = {
         "an array of a structured dtype with padding and its pickle round trip get different tokens",
     "nondeterminism:rebuild-equal-value:padded-struct-dtype":
         "two arrays of a padded structured dtype with equal fields (other padding bytes) get different tokens",
+    "nondeterminism:cross-interpreter:hashseed-same:padded-struct-dtype":
+        "same: the value rebuilt in a fresh interpreter (same hash seed) has other padding bytes and another token",
+    "nondeterminism:cross-interpreter:hashseed-differs:padded-struct-dtype":
+        "same, interpreter with another hash seed",
 }
 
 XPROC_SEEDS = ("0", "1", "random")
